@@ -143,8 +143,11 @@ def build_session(rng, sid, p, *, nfac, k, N, hermitian_flag, dens, complex_):
         created = [ses._ids[id_] for id_ in list(ses._ids)][count0:]
         labels = [ses.label(s) for s in series]
         prods = created[: len(facs) - 1]
-        if ses.label(P) != prods[-1]:
-            raise MachineryError(f"unexpected product structure {created} vs {ses.label(P)}")
+        if len(prods) != len(facs) - 1 or ses.label(P) != prods[-1]:
+            # the intermediate products are not the left-associated chain this harness knows (a different
+            # but possibly correct way to build the n-ary product): judge the FINAL product only -- its cells
+            # against the definition of the full product, the engine protocol for everything
+            prods = [f"?intermediate{a}" for a in range(2, len(facs))] + [ses.label(P)]
         nr, nc = len(facs[0]["rows"]), len(facs[-1]["cols"])
         cells = [(i, j, n) for i in range(nr) for j in range(nc) for n in ords]
         rng.shuffle(cells)
